@@ -80,9 +80,10 @@ def wide_specs(tier):
 
 
 def boundary_specs(tier):
+    extra = [{"mix": "boundary-full", "seed": SEED * 100 + 50, "events": 0}, {"mix": "boundary-long", "seed": SEED * 100 + 51, "events": 0}]
     if tier == "quick":
-        return [{"mix": "boundary", "seed": SEED * 100 + k, "events": 0} for k in range(4)]
-    return ([{"mix": "boundary", "seed": SEED * 100 + k, "events": 0} for k in range(8)]
+        return [{"mix": "boundary", "seed": SEED * 100 + k, "events": 0} for k in range(4)] + extra
+    return (extra + [{"mix": "boundary", "seed": SEED * 100 + k, "events": 0} for k in range(8)]
             + [{"mix": "boundary-real", "seed": SEED * 100 + k, "events": 0} for k in range(3)])
 
 
@@ -154,6 +155,8 @@ def check_property(prop, tier):
             add_replay(v, r, meta, "a third of the calls of every state applied to a second original rebuilt from the path: same result, == arena, same reusable slots as on the clone", ["C13"])
             r = run_replay(build_harness("debug"), path, ["--with-capacity", "7", "--no-observers", "--no-lookups"], "C13-with-capacity")
             add_replay(v, r, meta, "every bundle replayed on Arena::with_capacity(7)", ["C13"])
+            r = run_replay(build_harness("release"), path, ["--origin-mix", "--no-observers", "--no-lookups"], "C13-origin")
+            add_replay(v, r, meta, "every bundle replayed (release build) on an empty arena that came to be in another way (new / default / with_capacity(0) / clone of an empty arena / filled and cleared / new + reserve / with_capacity(600) / cleared + reserve(1100)), in rotation; reserve(k) with absurd k must not return normally without the room", ["C13"])
 
     if prop in ("C09", "C10", "C11"):
         for cfg in bundle_cfgs:
@@ -182,6 +185,15 @@ def check_property(prop, tier):
             path, meta = ensure_bundles(cfg)
             r = run_replay(build_harness("debug"), path, ["--roundtrip", "--no-observers", "--no-lookups"], "C16-" + cfg)
             add_replay(v, r, meta, "serde_json round trip at every reachable model state + one-step bisimulation of original and copy under every call", ["C16"])
+
+    if prop in ("C02", "C03", "C04", "C05", "C07", "C09", "C10", "C11", "C13", "C14", "C16"):
+        # a chain of 300 000 levels (far beyond what TLC or trace validation can hold): the expected values are the obvious
+        # functions of the depth; a call whose stack use grows with the depth ends the child process
+        for profile in ("debug", "release"):
+            summ, fs = vlib.run_deep(build_harness(profile), "%s-%s" % (prop, profile))
+            v.cov["evaluations"] += summ["phases_completed"]
+            v.cov["parts"].append({"part": "deep-chain:" + profile, "what": "a chain of %d levels built, traversed, edited, serialised, removed and recycled, sibling lists and top-level chains of 700 nodes consumed from both ends, and a chain of 4 000 levels drawn by the printers, in a child process on small stacks (2 MiB / 256 KiB); every call returns with the value the size determines" % summ["depth"], **summ})
+            v.add_findings(fs, "deep-chain:" + profile)
 
     if prop == "C02":
         # "every API call returns" includes formatting a debug_pretty_print proxy: every rendering of the print battery must end
@@ -245,7 +257,7 @@ def check_property(prop, tier):
 def check_c14(v, tier):
     for cfg in (["GenPrint_s4", "GenPrintShapes_k6", "GenPrintDeep"] if tier == "quick" else ["GenPrint_s5", "GenPrintShapes_k7", "GenPrintDeep"]):
         check_c14_cfg(v, tier, cfg)
-    v.assumptions.append("payload renderings: 1-3 lines, a 3-line payload has an empty middle line, multi-byte characters, written to the formatter in one piece / line by line / character by character; lines whose payload text is empty are compared modulo trailing blanks")
+    v.assumptions.append("payload renderings: 1-3 lines, a 3-line payload has an empty middle line, multi-byte characters, CR LF line ends, CR / TAB / trailing blanks inside lines, written to the formatter in one piece / line by line / character by character; lines whose payload text is empty are compared modulo trailing blanks; a rendering of more than 4 MiB or 60 s without progress counts as 'does not return'")
 
 
 def check_c14_cfg(v, tier, cfg):
@@ -328,6 +340,15 @@ def check_c17(v, tier):
         b = build_harness("debug", features=fs_, threads=("par_iter" in fs_))
         r = run_replay(b, path, [], "C17-" + (name.replace("+", "_")))
         digests[name] = r["digest"]
+        if fs_ == [] or (tier != "quick" and fs_ in (["std"], ["deser"], ["par_iter", "deser"])):
+            # the same battery without debug assertions (a check that is a debug_assert in one feature set only shows here)
+            br = build_harness("release", features=fs_, threads=("par_iter" in fs_))
+            rr = run_replay(br, path, [], "C17-" + (name.replace("+", "_")) + "-release")
+            digests[name + " (release)"] = rr["digest"]
+            for f in rr["findings"]:
+                f["detail"] = "[features: %s, release] %s" % (name, f["detail"])
+                f["orig_prop"] = f["prop"]
+            add_replay(v, rr, meta, "the exhaustive battery replayed by a RELEASE harness built with indextree features {%s}" % name, OUT_PROPS + ["C09", "C11"])
         # every mismatch with the one specification in a non-default build is a C17 matter
         for f in r["findings"]:
             f["detail"] = "[features: %s] %s" % (name, f["detail"])
@@ -432,10 +453,14 @@ def check_c18(v, tier):
     for fn in sorted(glob.glob(os.path.join(REPO, "indextree", "src", "*.rs"))):
         for i, line in enumerate(open(fn), 1):
             code = line.split("//")[0]
-            if _re.search(r"\b(Cell|RefCell|UnsafeCell|OnceCell|Atomic\w+|Mutex|RwLock|static\s+mut|thread_local)\b", code):
+            if _re.search(r"\b(Cell|RefCell|UnsafeCell|OnceCell|OnceLock|LazyLock|LazyCell|Atomic\w+|Mutex|RwLock|Condvar|static\s+mut|thread_local)\b", code):
+                hits.append("%s:%d: %s" % (os.path.relpath(fn, REPO), i, line.strip()))
+            # state outside the arena that a reader could depend on or synchronise on: the standard streams (process-wide locks),
+            # the state of the calling thread, the environment, clocks
+            elif _re.search(r"\b(io::(stderr|stdout|stdin)|thread::(panicking|current|park|sleep|yield_now|spawn)|std::(env|time|process)::|Instant::|SystemTime::)", code):
                 hits.append("%s:%d: %s" % (os.path.relpath(fn, REPO), i, line.strip()))
     if hits:
-        v.add_findings([{"prop": "C18", "kind": "interior-mutability", "detail": "interior mutability / shared mutable state in the library source: " + "; ".join(hits[:5]), "case": {"hits": hits}}], "source-scan")
+        v.add_findings([{"prop": "C18", "kind": "interior-mutability", "detail": "interior mutability / shared mutable state / dependence on process or thread state in the library source: " + "; ".join(hits[:5]), "case": {"hits": hits}}], "source-scan")
     # (c) model: Readers.tla - N concurrent readers over one shared forest, all interleavings
     mc = None
     if os.path.exists(os.path.join(SPEC, "mechanisms", "Readers.cfg")):
